@@ -54,6 +54,12 @@ impl ArchetypeVersion {
         }
     }
 
+    /// Verification hook: directly creates an archetype version.
+    #[cfg(gecs_verif)]
+    pub(crate) fn verif_new(version: NonZeroU32) -> Self {
+        Self { version }
+    }
+
     #[inline(always)]
     pub(crate) fn get(&self) -> NonZeroU32 {
         self.version
